@@ -274,6 +274,29 @@ func c04Round(c *core.Ctx, round int) {
 	srcs = append(srcs, "{% for d in dstrs %}{{ d | date: '%Y-%m-%d %H:%M' }};{% endfor %}", "{{ dlast | date: '%Y %j' }}{{ dfirst | date: '%H' }}{{ dstrs[7] | date: '%d' }}{{ dstrs[3] | date: '%m' }}", "{% for d in dstrs reversed %}{{ d | date: '%y' }}{% endfor %}")
 	srcs = append(srcs, "{{ ydrop | join: ',' }}{% for x in ydrop %}{{ x }}{% endfor %}{{ ydrop.first }}", "{% for k in keyed %}{{ k }}{% endfor %}{{ ordered.a }}{% for kv in ordered %}{{ kv[1] }}{% endfor %}")
 
+	// templates that are REJECTED (a clause or end tag where none may stand): the error paths of the parser consult
+	// tables too. They are put at odd positions, which are first parsed inside the concurrent phase.
+	for _, bad := range []string{"a{% else %}b", "{% if t %}{% when 1 %}{% endif %}", "{% for i in arr %}{% elsif t %}{% endfor %}", "x{% endif %}", "{% case n %}{% elsif t %}{% endcase %}",
+		"{% unless t %}{% when 2 %}{% endunless %}", "{% capture c %}{% else %}{% endcapture %}", "{% xwrap a %}{% when 1 %}{% endxwrap %}", "{% if t %}{% endfor %}", "{% nosuchtag %}", "{{ n | nosuchfilter }}",
+		"{% include 'c04/never-there.html' %}", "{% for i in arr %}{% include 'c04/never-there.html' %}{% endfor %}"} {
+		if len(srcs)%2 == 0 {
+			srcs = append(srcs, "filler {{ n }}")
+		}
+		srcs = append(srcs, bad)
+	}
+	// large containers shared by every goroutine and compared as wholes: equal ones, and ones that differ in the last place
+	bigA, bigB, bigC := make([]any, 3000), make([]any, 3000), make([]any, 3000)
+	bigM, bigN := map[string]any{}, map[string]any{}
+	for i := range bigA {
+		bigA[i], bigB[i], bigC[i] = i, i, i
+		bigM[fmt.Sprint("k", i)], bigN[fmt.Sprint("k", i)] = i, i
+	}
+	bigB[len(bigB)-1], bigN["k2999"] = -1, -1
+	b["bigA"], b["bigB"], b["bigC"], b["bigM"], b["bigN"], b["bigs"] = bigA, bigB, bigC, bigM, bigN, []any{bigB, bigA}
+	srcs = append(srcs, "{% if bigA == bigB %}eq{% else %}ne{% endif %}{% if bigA != bigB %}ne{% else %}eq{% endif %}{% if bigA == bigC %}eq{% else %}ne{% endif %}{% if bigM == bigN %}eq{% else %}ne{% endif %}",
+		"{% if bigs contains bigA %}has{% else %}not{% endif %}{% if bigA == bigB %}eq{% else %}ne{% endif %}{% case bigA %}{% when bigB %}B{% when bigC %}C{% else %}none{% endcase %}{{ bigs | uniq | size }}",
+		"{% if bigB == bigA %}eq{% else %}ne{% endif %}{% if bigN != bigM %}ne{% else %}eq{% endif %}{% if bigA <= bigB %}le{% else %}gt{% endif %}")
+
 	if !c.Begin(fmt.Sprintf("round %d: %d templates", round, len(srcs))) {
 		return
 	}
